@@ -68,6 +68,11 @@ def build(kinds, parents, alias, keystyle=0):
                 if kinds[t] not in (LIST, DICT):
                     return None
             late = (f, t)
+    if early is not None:
+        # an alias member built in at construction time counts for the hashability of its holder (and of the holders above)
+        for i in range(n - 1, -1, -1):
+            if kinds[i] in (TUPLE, FSET):
+                hashable[i] = all(hashable[c] for c in children[i]) and (early[0] != i or hashable[early[1]])
     for i in range(n):
         if kinds[i] in (SET, FSET):
             for c in children[i]:
@@ -277,7 +282,8 @@ def remap_law(n: int, k0: int, k1: int, k2: int, k3: int, k4: int, p2: int, p3: 
     """
     n = cz(n, pinval('nmin', 1), pinval('nmax', 4))
     root_kind = pin('root', k0, 1, 5)
-    kinds = [root_kind] + [cz(k, 0, 5) for k in [k1, k2, k3, k4][:n - 1]]
+    kinds = [root_kind] + [(pin('k1', k, 0, 5) if (idx == 0 and pinval('k1') is not None) else cz(k, 0, 5))
+                           for idx, k in enumerate([k1, k2, k3, k4][:n - 1])]
     parents = ([0, 0] + [cz(p, 0, i + 1) for i, p in enumerate([p2, p3, p4][:max(n - 2, 0)])])[:n]
     alias = None
     if pinval('alias', 0):
@@ -306,7 +312,10 @@ def obligations(tier):
     T = 170 if q else 1500
     for root in range(1, 6):
         for ks in ((0, 1) if root in (1, 2, 3) else (0,)):
-            obs.append(Ob('remap_law', timeout=T, pins={'root': root, 'nmin': 1, 'nmax': 4 if q else 5, 'alias': 0, 'visit': 0, 'keystyle': ks}))
+            obs.append(Ob('remap_law', timeout=T, pins={'root': root, 'nmin': 1, 'nmax': 4, 'alias': 0, 'visit': 0, 'keystyle': ks}))
+            if not q:
+                for k1 in range(6):       # five nodes, partitioned by the kind of the second node
+                    obs.append(Ob('remap_law', timeout=T, pins={'root': root, 'nmin': 5, 'nmax': 5, 'k1': k1, 'alias': 0, 'visit': 0, 'keystyle': ks}))
         obs.append(Ob('remap_law', timeout=T, pins={'root': root, 'nmin': 1, 'nmax': 3 if q else 4, 'alias': 1, 'visit': 0},
                       need_kinds=('alias',) + (('cycle',) if root in (1, 2) else ())))
     for root in (1, 2, 3):
